@@ -159,7 +159,11 @@ func (dtlsr *DTLSR) NotifyNewBundle(bp BundleDescriptor) {
 		defer dtlsr.dataMutex.Unlock()
 		storedData, present := dtlsr.receivedData[data.ID]
 
-		if !present {
+		if data.ID == dtlsr.c.NodeId {
+			// This is our own broadcast, which is announced like every other new bundle. Our links are taken from
+			// dtlsr.peers; a copy of their former state must not override them when the routing table is computed.
+			log.Debug("Ignoring own link-state data")
+		} else if !present {
 			log.Debug("Data for new peer")
 			// if we didn't have any data for that peer, we simply add it
 			dtlsr.receivedData[data.ID] = data
@@ -612,6 +616,8 @@ func (dtlsr *DTLSR) purgePeers() {
 				"disconnect_time": timestamp,
 			}).Debug("Removing stale peer")
 			delete(dtlsr.peers.Peers, peerID)
+			// other nodes replace our link-state data only by newer data
+			dtlsr.peers.Timestamp = bpv7.DtnTimeNow()
 			dtlsr.peerChange = true
 		}
 	}
